@@ -227,7 +227,7 @@ pub fn run(ctx: &Ctx) -> Report {
     let mut rep = Report::new(ID, "exploration", ctx);
     rep.rule = "Cases: generated mappings x 24 texts each, built over the mapping's own names (throwables, 'Caused by:' lines, frames with space/tab/mixed/no indentation, '... n more', Native Method / Unknown Source frames, frames without parentheses, blank lines, arbitrary Unicode, LF/CRLF/mixed, with/without final newline). Oracles: (1) per-line decision list of the statement composed from the public single-line API (Throwable::try_parse, StackFrame::try_parse, remap_throwable, remap_frame, Display formats) — output must equal the concatenation, result must be Ok; (2) for texts whose lines are all AST-kinded, expected output computed from the reference retrace model without any crate parsing; (3) conservation: output line count = sum max(1, #remapped frames); (4) mapper output == cache output; (5) with an unrelated and with an empty mapping the output equals the input lines joined with LF. evaluations = remap_stacktrace calls checked. Non-trivial = distinct texts in which >=1 line is rewritten and >=1 line is passed through.".into();
     rep.assumptions = vec!["single-line parsers are covered by C17 / C01; C07 is about the composition".into()];
-    rep.run_stage("ast", || map_case(&cfg()), ctx.cases(15_000, 200_000), check_case);
+    rep.run_stage("ast", || map_case(&cfg()), ctx.cases(15_000, 600_000), check_case);
     rep
 }
 
